@@ -27,3 +27,6 @@ Definition check_lcase (c : lcase) : bool :=
     && Nat.eqb (List.length (l_after s)) (List.length (lc_after c)).
 
 Definition bad_lcases (cs : list lcase) : list nat := bad_idx check_lcase 0 cs.
+
+(* the hypothesis of link_no_panic, evaluated on every fragment list the real fragment() produced *)
+Definition bad_seg (cs : list lcase) : list nat := bad_idx (fun c => seg_ok (lc_frags c)) 0 cs.
